@@ -98,12 +98,36 @@ fn scenario_from_plan(plan: &Value) -> Scenario {
     let failure_threshold = 1 + rng.below(3) as u32;
     let recovery_ms = 10 + rng.below(41);
     let half_open_max = 1 + rng.below(3) as u32;
-    let success_threshold = 1 + rng.below(2) as u32;
+    let success_threshold = 1 + rng.below(4) as u32;
+    // A quarter of the scenarios dwell in one half-open episode: the first thread opens the circuit and
+    // lets the recovery time pass, then everybody mostly asks for admission and reports successes.
+    let probe_heavy = rng.below(4) == 0;
     let mut threads = Vec::new();
-    for _ in 0..nthreads {
-        let n = 3.min(max_ops) + rng.usize_below(max_ops.saturating_sub(3) + 1);
+    for t in 0..nthreads {
+        let mut n = 3.min(max_ops) + rng.usize_below(max_ops.saturating_sub(3) + 1);
+        if probe_heavy {
+            n = max_ops + 2;
+        }
         let mut ops = Vec::new();
+        if probe_heavy && t == 0 {
+            for _ in 0..failure_threshold {
+                ops.push((0, OpKind::Failure));
+            }
+            ops.push((recovery_ms as i64, OpKind::Allow));
+        }
         for _ in 0..n {
+            if probe_heavy {
+                let op = match rng.below(10) {
+                    0..=5 => OpKind::Allow,
+                    6..=8 => OpKind::Success,
+                    _ => OpKind::State,
+                };
+                // the other threads often let the recovery time pass right away, while the report that
+                // opens the circuit may still be in flight
+                let adv = if t == 0 { 0 } else if ops.is_empty() { *rng.pick(&[0i64, recovery_ms as i64, recovery_ms as i64]) } else { *rng.pick(&[0i64, 0, 0, 1, recovery_ms as i64]) };
+                ops.push((adv, op));
+                continue;
+            }
             let op = match rng.below(10) {
                 0..=3 => OpKind::Allow,
                 4..=5 => OpKind::Success,
@@ -203,18 +227,28 @@ fn check_log(sc: &Scenario, log: &[LogEntry]) -> Vec<Violation> {
         // (`before`/`after` are samples taken around each call, so a success or failure report may
         // have ended the episode and a new one may have begun unnoticed: every such report that does
         // not lie entirely before this episode is treated as a possible end of it)
+        // A failure report ends the episode (back to Open); success reports end it only when
+        // `success_threshold` of them have been recorded (Closed). Every success report that does not
+        // lie entirely before the episode may count towards that, so the episode may end at the start
+        // of the success_threshold-th earliest of them.
+        let mut success_starts: Vec<u64> = by_end.iter().filter(|x| x.op == OpKind::Success && !std::ptr::eq(**x, e) && x.end > window_start).map(|x| x.start).collect();
+        success_starts.sort();
+        let closing_success_start = success_starts.get(sc.success_threshold.saturating_sub(1) as usize).copied();
         for later in by_end.iter() {
             if std::ptr::eq(*later, e) || later.end <= window_start {
                 continue;
             }
-            let may_end = later.after != 2 || matches!(later.op, OpKind::Failure | OpKind::Success);
+            let may_end = later.after != 2 || later.op == OpKind::Failure || (later.op == OpKind::Success && closing_success_start.map(|c| later.start >= c).unwrap_or(false));
             if may_end && later.start < window_end {
                 window_end = later.start.max(window_start);
             }
         }
         // admitted requests whose whole interval lies inside the episode (calls overlapping its
         // edges are not counted, so the verdict holds for every linearisation of the intervals)
-        let admitted = by_end.iter().filter(|x| x.op == OpKind::Allow && x.allowed == Some(true) && x.start >= window_start && x.end < window_end).count() as u32;
+        // A request that sampled Closed right before it asked may have been admitted by the closed
+        // circuit (the failure that opened it was still in flight): only requests that saw Open or
+        // HalfOpen before they asked are certainly probes.
+        let admitted = by_end.iter().filter(|x| x.op == OpKind::Allow && x.allowed == Some(true) && x.before != 0 && x.start >= window_start && x.end < window_end).count() as u32;
         // the request that performs the Open -> HalfOpen transition is tolerated on top of the budget
         if admitted > sc.half_open_max + 1 {
             out.push(Violation {
